@@ -247,6 +247,7 @@ static void c11_gen(plan_t *p, rng_t *r, int tier) {
 	if (skip && rng_chance(r, 700)) { op = plan_add_op(p, "attach"); item_set(&op->it, "actor", 0); item_set(&p->cfg, "attdestroy", rng_chance(r, 500)); }
 	item_set(&p->cfg, "waitstart", rng_chance(r, 400));
 	item_set(&p->cfg, "fd0", rng_chance(r, 80));
+	item_set(&p->cfg, "pool2", rng_chance(r, 100));
 	if (rng_chance(r, 60)) item_set(&p->cfg, "hookshut", 1 + (long long)rng_below(r, (uint64_t)n + 1));
 	int first_traffic = p->nops;
 	{
@@ -417,6 +418,19 @@ again:
 	if (tcreate_op >= 0) {
 		sim_set_op(tcreate_op);
 		world_start_threads(0, (int)item_get(&p->ops[tcreate_op].it, "skip", 0));
+	}
+	if (item_get(&p->cfg, "pool2", 0) && !pw->shutdown_called) {
+		/* a second pool comes and goes while the first one runs (two subsystems of one process): the first pool's
+		 * threads must keep their identity (deadlock guards, self-sends) and nothing of the second may stay behind */
+		int rc2;
+		sim_set_op(-2);
+		rc2 = world_create_pool(1, 1, 0, 0);
+		if (0 != rc2) { sim_violation("lc-create-failed", "tp_create of a second pool failed (%d) without an injected fault", rc2); return NULL; }
+		world_start_threads(1, 0);
+		rc2 = tp_destroy(W.pool[1].tp);
+		W.pool[1].tp = NULL; W.pool[1].destroyed = 1;
+		if (0 != rc2) { sim_violation("lc-bad-errno", "tp_destroy of the second pool returned %d", rc2); return NULL; }
+		sim_probe("c11.second_pool_came_and_went");
 	}
 	C.att_destroy = (int)item_get(&p->cfg, "attdestroy", 0);
 	if (attach_op >= 0 && pw->never_started[0]) {
